@@ -239,6 +239,7 @@ func checkC12(w *World, r *Report) {
 			r.Check(reached, "C12.validate", fmt.Sprintf("%s: GenesisState.%s validated by %s.Validate", m, st.Field(i).Name(), n.Obj().Name()), w.Pos(gv.Pos()), "reachable from GenesisState.Validate", "the element type has a Validate method that genesis validation never calls")
 		}
 	}
+	r.Rule("C12.paired", "P6", "vesting periods travel through genesis as (value, unit) pairs: every import conversion receives the unit that belongs to its value and is stored as that very period; every export conversion of a period is stored as that period's own value and unit", 7)
 	// ---------- C12.lossless ----------
 	from := w.Func("x/cfevesting/types.UnitsFromDuration")
 	to := w.Func("x/cfevesting/types.DurationFromUnits")
@@ -329,6 +330,109 @@ func checkC12(w *World, r *Report) {
 		_, a := expReach[from]
 		_, b := initReach[to]
 		r.Check(a && b, "C12.lossless", "export applies UnitsFromDuration, import applies DurationFromUnits", w.Pos(from.Pos()), "both on their trees", "the conversions are not paired on the export / import trees")
+	}
+	// ---------- C12.paired ----------
+	// a period travels through genesis as (value, unit): on import each conversion is given the unit that belongs to
+	// the value and its result is stored as that period; on export each period's conversion results are stored as its
+	// own value and unit
+	{
+		suffixOf := func(o *Origin, cands []string) (string, bool) {
+			got := ""
+			for _, l := range o.Leaves {
+				if l.Path == "" {
+					continue
+				}
+				hit := ""
+				for _, c := range cands {
+					if strings.HasSuffix(l.Path, "."+c) {
+						hit = c
+					}
+				}
+				if hit == "" {
+					continue
+				}
+				if got != "" && got != hit {
+					return "", false
+				}
+				got = hit
+			}
+			return got, got != ""
+		}
+		periods := []string{"LockupPeriod", "VestingPeriod"}
+		units := []string{"LockupPeriodUnit", "VestingPeriodUnit"}
+		mkTr := func() *Tracer {
+			t := w.Tracer()
+			t.NoIndex = true
+			t.Lift = 2
+			t.Opaque["x/cfevesting/types.DurationFromUnits"] = true
+			t.Opaque["x/cfevesting/types.UnitsFromDuration"] = true
+			t.Stop = []string{"types.DurationFromUnits", "types.UnitsFromDuration"}
+			return t
+		}
+		nImp, nExp := 0, 0
+		for fn := range cg.Reach(ro.INIT["cfevesting"]) {
+			if !w.isProdFunc(fn) {
+				continue
+			}
+			for _, s := range cg.Sites[fn] {
+				if !calleeIs(s, "x/cfevesting/types.DurationFromUnits") {
+					continue
+				}
+				nImp++
+				a := s.Common().Args
+				u, okU := suffixOf(mkTr().Origins(a[0]), units)
+				v, okV := suffixOf(mkTr().Origins(a[1]), periods)
+				r.Check(okU && okV && u == v+"Unit", "C12.paired", fmt.Sprintf("import: %s converted with its own unit", v), w.Pos(s.Instr.Pos()), "DurationFromUnits("+u+", "+v+")", fmt.Sprintf("a period is converted with the unit of another one on import (value %q, unit %q): an exported state whose two periods are rendered in different units comes back with another period", v, u))
+				// where the result is stored
+				for _, f2 := range w.ProdFuncs() {
+					if _, on := cg.Reach(ro.INIT["cfevesting"])[f2]; !on {
+						continue
+					}
+					for _, fs := range FieldStores(f2) {
+						if !namedIs(fs.Struct, "x/cfevesting/types", "VestingType") || (fs.Field != "LockupPeriod" && fs.Field != "VestingPeriod") {
+							continue
+						}
+						o := mkTr().Origins(fs.Store.Val)
+						if o.Calls[siteCall(s)] {
+							r.Check(fs.Field == v, "C12.paired", fmt.Sprintf("import: the converted %s is stored as %s", v, fs.Field), w.Pos(fs.Store.Pos()), "same period", "the converted "+v+" is stored as "+fs.Field)
+						}
+					}
+				}
+			}
+		}
+		for fn := range cg.Reach(ro.EXPORT["cfevesting"]) {
+			if !w.isProdFunc(fn) {
+				continue
+			}
+			for _, s := range cg.Sites[fn] {
+				if !calleeIs(s, "x/cfevesting/types.UnitsFromDuration") {
+					continue
+				}
+				nExp++
+				v, okV := suffixOf(mkTr().Origins(s.Common().Args[0]), periods)
+				r.Check(okV, "C12.paired", "export: conversion of a stored period", w.Pos(s.Instr.Pos()), "UnitsFromDuration("+v+")", "the exported value is not one of the stored periods")
+				call := siteCall(s)
+				for _, fs := range FieldStores(fn) {
+					if !namedIs(fs.Struct, "x/cfevesting/types", "GenesisVestingType") {
+						continue
+					}
+					isP, isU := fs.Field == "LockupPeriod" || fs.Field == "VestingPeriod", fs.Field == "LockupPeriodUnit" || fs.Field == "VestingPeriodUnit"
+					if !isP && !isU {
+						continue
+					}
+					o := mkTr().Origins(fs.Store.Val)
+					if !o.Calls[call] {
+						continue
+					}
+					want := v
+					if isU {
+						want = v + "Unit"
+					}
+					r.Check(fs.Field == want, "C12.paired", fmt.Sprintf("export: the conversion of %s is stored as %s", v, fs.Field), w.Pos(fs.Store.Pos()), "own value / own unit", "the converted "+v+" is exported as "+fs.Field)
+				}
+			}
+		}
+		r.Check(nImp >= 2 && nExp >= 2, "C12.paired", "both periods are converted on import and on export", "", fmt.Sprintf("%d conversions on import, %d on export", nImp, nExp), fmt.Sprintf("%d conversions on import, %d on export (expected two each)", nImp, nExp))
 	}
 	// ---------- C12.verbatim ----------
 	checkVerbatim(w, r, "C12.verbatim", flatten(ro.INIT))
